@@ -47,13 +47,11 @@ impl Axecutor {
     fn instr_cmovne_r32_rm32(&mut self, i: Instruction) -> Result<(), AxError> {
         debug_assert_eq!(i.code(), Cmovne_r32_rm32);
 
-        if self.state.rflags & FLAG_ZF == 0 {
-            calculate_r_rm![u32; self; i; |_, s| {
-                s
-            }; (set: FLAGS_UNAFFECTED; clear: 0)]
-        } else {
-            Ok(())
-        }
+        // The 32-bit form always writes its destination (zero-extending it), even if the condition is false
+        let take = self.state.rflags & FLAG_ZF == 0;
+        calculate_r_rm![u32; self; i; |d, s| {
+            if take { s } else { d }
+        }; (set: FLAGS_UNAFFECTED; clear: 0)]
     }
 
     /// CMOVNE r64, r/m64
